@@ -313,11 +313,15 @@ def judgeLine (c : Ctx) (root : Tree) (rootId : Nat) (r : Res) (line : String) :
         else r
       if exp == answer then r
       else
-        -- classify the position-based node.c findings by what the expected node looks like
+        -- classify the position-based node.c findings by what the expected node looks like; a
+        -- finding is only attributed to a known defect when the API's answer is exactly what the
+        -- port of the unchanged algorithm computes (anything else is ":unexplained")
         let expNode := c.byId.get? (parseHexNat exp)
         let zeroWidth := match expNode with | some j => c.ft.sb j == c.ft.eb j | none => false
+        let explained := navPort == some answer
         let label :=
-          if (op == "ns" || op == "nns") && zeroWidth then op ++ ":zero-width-sibling-skipped"
+          if !explained && navPort.isSome then op ++ ":unexplained"
+          else if (op == "ns" || op == "nns") && zeroWidth then op ++ ":zero-width-sibling-skipped"
           else if (op == "dbr" || op == "ndbr" || op == "dpr" || op == "ndpr") && zeroWidth then op ++ ":zero-width"
           else if (op == "fcb" || op == "fncb") &&
               (answer == "-" || (match c.byId.get? (parseHexNat answer), expNode with
